@@ -104,11 +104,12 @@ PROPS["C03"] = dict(
 
 PROPS["C20"] = dict(
     level="proof",
+    translators=[translate.gen_consts],
     runs=[dict(bin="c20")],
     quick=dict(n=2000, shards=16),
     thorough=dict(n=30000, shards=128, run_timeout=3000, coq_case_timeout=3000),
     trusted_base=[
-        "model coq/C20/Model.v of api/src/term/_native_literal.rs and of core's integer Display/FromStr, bool FromStr, the grammar accepted by f64::from_str and flt2dec::digits_to_dec_str (hand-written); datatype white-lists transcribed by hand",
+        "model coq/C20/Model.v of api/src/term/_native_literal.rs and of core's integer Display/FromStr, bool FromStr, the grammar accepted by f64::from_str and flt2dec::digits_to_dec_str (hand-written); datatype white-lists re-generated from the source and proved equal to the model's (whitelists_from_source)",
         "XSD 1.1 lexical spaces and integer facets transcribed as boolean recognisers/tables (integer recogniser proved equal to its explicit grammar; Rust's numeric float grammar proved equal to xsd:double's)",
         "finite doubles: format_shortest is a universally quantified Section parameter assumed only to return digit strings; exact value round-trip and the xsd:float (f32) rounding are checked by the Rust oracle, which trusts std's str::parse::<f64/f32> as correctly rounded",
         "isize/usize are 64 bits",
